@@ -10,6 +10,7 @@ package evalfilter
 import (
 	"context"
 	"fmt"
+	"sort"
 	"strings"
 	"sync"
 
@@ -261,9 +262,16 @@ func (e *Eval) Dump() error {
 		fmt.Printf("\nUser-defined functions:\n")
 	}
 
-	// For each function
+	// For each function, in a fixed order
+	names := make([]string, 0, len(funs))
+	for name := range funs {
+		names = append(names, name)
+	}
+	sort.Strings(names)
+
 	count := 0
-	for name, obj := range funs {
+	for _, name := range names {
+		obj := funs[name]
 		// Show brief information
 		fmt.Printf(" function %s(%s)\n", name, strings.Join(obj.Arguments, ","))
 
